@@ -166,9 +166,13 @@ PROPERTIES = {
         "TransitionList.unique_events, StateMachine.events / allowed_events and bind_events_to are NOT under contract (the "
         "ordered-dedup invariant did not discharge in the time budget): covered by the bounded API layer only; send, "
         "Event.__call__ and Event.__get__ are proved"]},
-    "C12": {"bounded": [api_layer("C12"), witnesses("C12", ["C12_late_async_listener", "C12_reattach_duplicates_expression_guard"])],
-            "assumptions": ["Listeners.search_name / resolve / build and StateMachine._register_callbacks / add_listener are not under "
-                            "contract yet: the bounded API layer stands in; the registry/executor/wrapper chain they feed is proved (C01, C02)"]},
+    "C12": {"lemmas": [_lemmas_cnt, lambda: __import__("contracts.dispatcher", fromlist=["x"]).lemma_nprov_monotone()],
+            "bounded": [api_layer("C12"), witnesses("C12", ["C12_late_async_listener", "C12_reattach_duplicates_expression_guard"])],
+            "assumptions": ["Listeners.search_name is proved (every provider of a name contributes one pair, symmetric in the providers); "
+                            "Listeners.resolve / build / _take_callback, CallbacksExecutor.add and StateMachine._register_callbacks / "
+                            "add_listener are not under contract yet: the bounded API layer stands in; the registry/executor/wrapper "
+                            "chain they feed is proved (C01, C02)",
+                            "dir()/getattr()/callable() on provider objects as documented (reflective primitives, ATTR_OF / CALLABLE oracles)"]},
     "C15": {"bounded": [api_layer("C15"), witnesses("C15", ["C15_any_skips_later_states"])],
             "assumptions": ["builders (to / from_ / itself / any, |, add_transitions, Events.add, factory.add_*, States.from_enum) are not under "
                             "contract yet: the bounded API layer (all renderings of random small abstract machines) stands in"]},
